@@ -349,6 +349,13 @@ Theorem C01_verbatim_block_instance :
              "        x = 1"; ""; "        if x:"; "            y = 2"].
 Proof. exact verbatim_block_instance. Qed.
 Print Assumptions C01_verbatim_block_instance.
+Theorem C01_verbatim_statement_order_instance :
+  block_of_script ("`self._W[t] = self._Y[t] * 2.0`" ++ nl_s ++ "Y = X + 1" ++ nl_s ++ "Z = Y * W")
+  = Some (join_nl ["        # Y[t] = X[t] + 1"; "        self._Y[t] = self._X[t] + 1"; "";
+                   "        # Z[t] = Y[t] * W[t]"; "        self._Z[t] = self._Y[t] * self._W[t]"; "";
+                   "        # `self._W[t] = self._Y[t] * 2.0`"; "        self._W[t] = self._Y[t] * 2.0"]).
+Proof. exact verbatim_statement_order. Qed.
+Print Assumptions C01_verbatim_statement_order_instance.
 Theorem C01_class_text_instance :
   indent8 (default_converter "Y[t] = X[t-1]" "self._Y[t] = self._X[t-1]")
   = "        # Y[t] = X[t-1]" ++ nl_s ++ "        self._Y[t] = self._X[t-1]".
